@@ -972,6 +972,10 @@ func GrammarGen(cfg GenConfig) *rapid.Generator[*Grammar] {
 				alts.Sub = append(alts.Sub, &Expr{K: KAny})
 				loop = &Expr{K: KStar, Sub: []*Expr{alts}}
 			}
+			if len(alts.Sub) == 1 {
+				// (every entry is nullable: the body is the single-rune alternative alone)
+				*alts = *alts.Sub[0]
+			}
 			c.g.Rules = append(c.g.Rules, &Rule{Name: "Loop", Expr: loop})
 			c.g.Entries = append(c.g.Entries, "Loop")
 		}
